@@ -532,6 +532,11 @@ var propFalsifiers = map[string]func(w *World, fn *ssa.Function, r vcResult) *Co
 	"C02": rangeFalsifier,
 	"C20": orderFalsifier,
 	"C14": apkFalsifier,
+	"C10": func(w *World, fn *ssa.Function, r vcResult) *Counterexample { return refOrderFalsifier(w, "C10") },
+	"C11": func(w *World, fn *ssa.Function, r vcResult) *Counterexample { return refOrderFalsifier(w, "C11") },
+	"C12": func(w *World, fn *ssa.Function, r vcResult) *Counterexample { return refOrderFalsifier(w, "C12") },
+	"C13": func(w *World, fn *ssa.Function, r vcResult) *Counterexample { return refOrderFalsifier(w, "C13") },
+	"C05": shorthandFalsifier,
 }
 
 const rangeTestTmpl = `package %s
